@@ -100,6 +100,9 @@ func (p *Parser) FromString(data string) error {
 
 func (p *Parser) parseString(data string) error {
 	scanner := bufio.NewScanner(strings.NewReader(data))
+	// A line can be as long as the whole input: the default 64KiB token limit would make the
+	// scanner stop at a longer line and silently drop the rest of the configuration.
+	scanner.Buffer(nil, len(data)+1)
 	var linebuffer strings.Builder
 	inBackticks := false
 	for scanner.Scan() {
@@ -139,6 +142,9 @@ func (p *Parser) parseString(data string) error {
 			}
 			linebuffer.Reset()
 		}
+	}
+	if err := scanner.Err(); err != nil {
+		return err
 	}
 	if inBackticks {
 		return errors.New("backticks left open")
